@@ -8,7 +8,7 @@ P20  `slice::windows(0)`, `chunks(0)`, `Iterator::step_by(0)` panic.  Every such
      constant, or a dominating test on the same quantity that excludes zero, or a reviewed reason.  (Found: an empty end
      delimiter accepted by `SyntaxConfigBuilder::build` reached `haystack.windows(0)` in `memstr`.)
 """
-from .. import flow
+from .. import flow, query
 from ..facts import const_int
 
 FRONT = ("minijinja/src/compiler/lexer.rs", "minijinja/src/compiler/parser.rs", "minijinja/src/syntax.rs")
@@ -117,4 +117,105 @@ def check_zero_sizes(ctx, prog, tag=""):
                    ("accepted: " + why) if why else
                    "%s calls %s with a size that is neither a non-zero constant nor under a test that excludes 0 (and has no "
                    "reviewed reason): `%s(0)` panics" % (f.path.split("::")[-1], last, last), f.where(c.bb))
+    return n
+
+
+def check_assignment_targets(ctx, prog, tag=""):
+    """P21 (round 10; `{% import 'x' as 42 %}` reached `unreachable!()` in the code generator while the template was
+    loaded): producer / consumer agreement on assignment targets.  Consumer: the variants of `ast::Expr` for which the arm
+    of `compile_assignment` does not end in a panic.  Producers: every place where the parser fills a field of an AST node
+    that the generator hands to `compile_assignment` (found by the labelled events of C18: ForLoop.target, Set.target,
+    Import.name, the pairs of WithBlock / FromImport ...) - the expression stored there comes from parser functions that
+    can only build supported variants (their own `ast::Expr` aggregates plus those of the parser functions they call)."""
+    from . import c18 as _c18
+    from .. import arms as _arms
+    G = "minijinja::compiler::codegen::CodeGenerator::"
+    EXPR = "minijinja::compiler::ast::Expr"
+    ca = prog.fns.get(G + "compile_assignment")
+    if ca is None or EXPR not in prog.adts:
+        return 0
+    sw = _arms.enum_switches(prog, ca, EXPR)
+    if not sw:
+        return 0
+    regs = _arms.arm_regions(prog, ca, sw[0][0], EXPR)
+    supported = set()
+    for v, reg in regs.items():
+        panics = any(c.bb in reg and ("panicking::" in c.name or c.name.endswith("::unreachable")) for c in ca.calls())
+        if not panics:
+            supported.add(v)
+    if not supported or len(supported) == len(regs):
+        return 0
+    ce, me, cs, ms = _c18.labelled_events(prog)
+    fields = sorted({(e.T, e.field) for e in ce if e.kind == "assign" and e.field and e.T.split("::")[-1] not in ("List", "Tuple")})
+    # what each parser function can build
+    P = "minijinja::compiler::parser::"
+    pfns = {k: f for k, f in prog.fns.items() if k.startswith(P) and f.kind != "closure"}
+    builds = {}
+    calls = {}
+    for k, f in pfns.items():
+        vs = set()
+        for g in [f] + prog.closures_of(k):
+            for bb, i, st in g.all_stmts():
+                rv = st.get("rv")
+                if rv and rv["k"] == "agg" and rv.get("adt") == EXPR and rv.get("variant"):
+                    vs.add(rv["variant"])
+        builds[k] = vs
+        calls[k] = {c.name for g in [f] + prog.closures_of(k) for c in g.calls() if c.name in pfns and "ast::Expr" in pfns[c.name].locals[0].get("s", "")}
+    grew = True
+    while grew:
+        grew = False
+        for k in pfns:
+            for c in calls[k]:
+                if not builds[c] <= builds[k]:
+                    builds[k] |= builds[c]
+                    grew = True
+    n = 0
+    for (T, field) in fields:
+        short = T.split("::")[-1]
+        for (f, bb, i, rv) in query.aggregates_of(prog, T):
+            if not f.path.startswith(P):
+                continue
+            names = rv.get("fields") or []
+            if field[0] not in names:
+                continue
+            op = rv["ops"][names.index(field[0])]
+            if "c" in op:
+                continue
+            comp = field[1] if len(field) > 1 else None
+            producers = set()
+            unknown = False
+            for o in flow.origins(f, op, through_calls=lambda k: 0 if k.name.endswith(("::into_boxed_slice", "::into", "::from")) else None):
+                if o.kind == "call" and o.call.name in pfns:
+                    producers.add(o.call.name)
+                elif o.kind == "call" and (o.call.name.endswith(("Vec::new", "Vec::with_capacity")) or "Vec" in o.call.name):
+                    # a list that is filled by pushes: what is pushed onto it
+                    vl = o.call.dest["l"] if o.call.dest and "p" not in o.call.dest else None
+                    for c in f.calls():
+                        if c.name.endswith("Vec::push") and len(c.args) == 2 and any(q.kind == "call" and q.call.bb == o.call.bb for q in flow.origins(f, c.args[0])):
+                            for q in flow.origins(f, c.args[1]):
+                                items = [c.args[1]]
+                                if q.kind == "agg" and q.rv.get("agg") == "tuple" and comp is not None and comp.isdigit() and int(comp) < len(q.rv["ops"]):
+                                    items = [q.rv["ops"][int(comp)]]
+                                for it in items:
+                                    for r in (flow.origins(f, it) if "c" not in it else []):
+                                        if r.kind == "call" and r.call.name in pfns:
+                                            producers.add(r.call.name)
+                                        elif r.kind == "call" and r.call.name.startswith("core::option::Option"):
+                                            for r2 in flow.origins(f, r.call.args[0]):
+                                                if r2.kind == "call" and r2.call.name in pfns:
+                                                    producers.add(r2.call.name)
+                                        elif r.kind == "agg" and r.rv.get("adt") == EXPR:
+                                            if r.rv.get("variant") not in supported:
+                                                unknown = True
+                elif o.kind == "agg" and o.rv.get("adt") == EXPR:
+                    if o.rv.get("variant") not in supported:
+                        unknown = True
+            if not producers and not unknown:
+                continue
+            n += 1
+            bad = sorted({"%s can build %s" % (k.split("::")[-1], sorted(builds[k] - supported)) for k in producers if builds[k] - supported})
+            ctx.ob("C01.P21.assignment-target-is-built-by-a-target-parser", "%s%s.%s|%s" % (tag, short, ".".join(field), f.path.split("::")[-1]),
+                   not bad and not unknown,
+                   "the generator assigns to %s.%s with compile_assignment, which panics for everything but %s; the parser fills it "
+                   "from %s" % (short, ".".join(field), sorted(supported), bad or sorted(k.split("::")[-1] for k in producers)), f.where(bb))
     return n
